@@ -306,16 +306,24 @@ class Context:
         # Store for other constructors to use
         self._object_prototype = object_prototype
 
+        def own_keys(obj):
+            """Own enumerable keys: the indices of an array or string first, then the rest."""
+            if isinstance(obj, str):
+                return [str(i) for i in range(len(obj))]
+            if isinstance(obj, JSArray):
+                return [str(i) for i in range(len(obj._elements))] + obj.keys()
+            return obj.keys()
+
         def keys_fn(*args):
             obj = args[0] if args else UNDEFINED
             if isinstance(obj, JSFunction):
                 arr = JSArray()
                 arr._elements = list(obj.properties.keys())
                 return arr
-            if not isinstance(obj, JSObject):
+            if not isinstance(obj, (JSObject, str)):
                 return JSArray()
             arr = JSArray()
-            arr._elements = list(obj.keys())
+            arr._elements = own_keys(obj)
             return arr
 
         def read(obj, key):
@@ -325,19 +333,19 @@ class Context:
 
         def values_fn(*args):
             obj = args[0] if args else UNDEFINED
-            if not isinstance(obj, JSObject):
+            if not isinstance(obj, (JSObject, str)):
                 return JSArray()
             arr = JSArray()
-            arr._elements = [read(obj, k) for k in obj.keys()]
+            arr._elements = [read(obj, k) for k in own_keys(obj)]
             return arr
 
         def entries_fn(*args):
             obj = args[0] if args else UNDEFINED
-            if not isinstance(obj, JSObject):
+            if not isinstance(obj, (JSObject, str)):
                 return JSArray()
             arr = JSArray()
             arr._elements = []
-            for k in obj.keys():
+            for k in own_keys(obj):
                 entry = JSArray()
                 entry._elements = [k, read(obj, k)]
                 arr._elements.append(entry)
